@@ -735,7 +735,7 @@ Definition ex_select : mselect :=
     (Some (MBin BOr (MIdent false "a") (MBin BAnd (MIdent false "b") (MNot (MIdent false "c")))))
     [GrExpr (MQIdent "u" "id")] (Some (MBin (BCmp CGt) (MFunc "COUNT" false [MIdent false "x"]) (MNum "1")))
     [MkOrder (MIdent false "n") (Some false) (Some false); MkOrder (MNum "1") None None]
-    (Some "10") (Some "5") (Some (MkFetch true "3" false (Some true) true)) (Some (MkFor LkNoKeyUpdate ["u"; "o"] WtSkipLocked)).
+    (Some "10") (Some "5") (Some (MkFetch true "3" false (Some true) true)) None.
 Example ex_select_ok : select_ok ex_select = true. Proof. reflexivity. Qed.
 Example ex_select_text :
   map lit (render_select (fun _ _ => no_parens) ex_select)
@@ -743,8 +743,21 @@ Example ex_select_text :
      ","; "t"; "LEFT"; "OUTER"; "JOIN"; "orders"; "o"; "ON"; "o"; "."; "uid"; "="; "u"; "."; "id";
      "JOIN"; "items"; "USING"; "("; "oid"; ","; "k"; ")";
      "WHERE"; "a"; "OR"; "b"; "AND"; "NOT"; "c"; "GROUP"; "BY"; "u"; "."; "id"; "HAVING"; "COUNT"; "("; "x"; ")"; ">"; "1";
-     "ORDER"; "BY"; "n"; "DESC"; "NULLS"; "LAST"; ","; "1"; "LIMIT"; "10"; "OFFSET"; "5"; "FETCH"; "NEXT"; "3"; "ROWS"; "WITH"; "TIES";
-     "FOR"; "NO"; "KEY"; "UPDATE"; "OF"; "u"; ","; "o"; "SKIP"; "LOCKED"].
+     "ORDER"; "BY"; "n"; "DESC"; "NULLS"; "LAST"; ","; "1"; "LIMIT"; "10"; "OFFSET"; "5"; "FETCH"; "NEXT"; "3"; "ROWS"; "WITH"; "TIES"].
+Proof. reflexivity. Qed.
+
+(* GROUPING SETS and the locking clause *)
+Definition ex_select_lock : mselect :=
+  MkSelect false [] [IExpr (MIdent false "x") None; IExpr (MFunc "SUM" false [MIdent false "v"]) None] [MkTable ["t"] None; MkTable ["u"] None] [] None
+    [GrExpr (MIdent false "x");
+     GrSets [GsList [MIdent false "x"; MBin BAdd (MIdent false "y") (MNum "1")]; GsBare (MQIdent "t" "y"); GsList []; GsList [MIdent false "z"]]]
+    None [] (Some "5") None None (Some (MkFor LkNoKeyUpdate ["t"; "u"] WtSkipLocked)).
+Example ex_select_lock_ok : select_ok ex_select_lock = true. Proof. reflexivity. Qed.
+Example ex_select_lock_text :
+  map lit (render_select (fun _ _ => no_parens) ex_select_lock)
+  = ["SELECT"; "x"; ","; "SUM"; "("; "v"; ")"; "FROM"; "t"; ","; "u"; "GROUP"; "BY"; "x"; ","; "GROUPING SETS"; "(";
+     "("; "x"; ","; "y"; "+"; "1"; ")"; ","; "t"; "."; "y"; ","; "("; ")"; ","; "("; "z"; ")"; ")";
+     "LIMIT"; "5"; "FOR"; "NO"; "KEY"; "UPDATE"; "OF"; "t"; ","; "u"; "SKIP"; "LOCKED"].
 Proof. reflexivity. Qed.
 
 (* a WITH statement over a set operation, and an INSERT ... SELECT ... RETURNING *)
@@ -753,8 +766,7 @@ Definition ex_stmt_with : mstmt :=
                                (QSetOp (QSelect (MkSelect false [] [IExpr (MNum "1") None; IExpr (MNum "2") None] [] [] None [] None [] None None None None))
                                        OUnion true
                                        (MkSelect true [MIdent false "x"] [IExpr (MBin BAdd (MIdent false "x") (MNum "1")) None; IExpr (MIdent false "y") None]
-                                                 [MkTable ["c"] None] [] (Some (MBin (BCmp CLt) (MIdent false "x") (MNum "10"))) [GrRollup [MIdent false "x"; MIdent false "y"]; GrExpr (MNum "1");
-                                                  GrSets [GsList [MIdent false "x"; MBin BAdd (MIdent false "y") (MNum "1")]; GsBare (MIdent false "y"); GsList []]] None [] None None None None))]))
+                                                 [MkTable ["c"] None] [] (Some (MBin (BCmp CLt) (MIdent false "x") (MNum "10"))) [GrRollup [MIdent false "x"; MIdent false "y"]; GrExpr (MNum "1")] None [] None None None None))]))
          (BQuery (QSelect ex_select)).
 Definition ex_stmt_insert : mstmt :=
   MkStmt None
